@@ -505,7 +505,7 @@ func (cl *c20Client) one(kind string) {
 		bi := cl.r.Intn(h.nb)
 		hd := cl.handle(h.branch(bi))
 		tgt := cl.pickTarget(hd.tok, kind == "ff" && cl.r.Intn(100) < 75)
-		in := c20Op{ID: cl.nextID(), Kind: kind, DS: h.branch(bi), WS: -1, Exp: hd.tok, New: tgt}
+		in := c20Op{ID: cl.nextID(), Kind: kind, DS: h.branch(bi), WS: -1, Exp: hd.tok, New: tgt, Multi: len(e.dbs) > 1}
 		wsPath := ""
 		if cl.r.Intn(100) < 45 {
 			in.WS = h.wsOf(bi)
@@ -839,6 +839,19 @@ func c20Judge(h *c20History) c20Result {
 			conds = append(conds, cond{in.DS, "", o.Call, o.Return, out.Err == ""})
 		}
 	}
+	// diagnostic: identical fast-forwards that were both acknowledged (multi-handle idempotent success, see c20Step)
+	seenFF := map[string]int{}
+	for _, o := range h.ops {
+		in, out := o.Input.(c20Op), o.Output.(c20Out)
+		if in.Kind == "ff" && out.Err == "" && in.Exp != in.New {
+			seenFF[fmt.Sprintf("%d/%s/%s", in.DS, in.Exp, in.New)]++
+		}
+	}
+	for _, n := range seenFF {
+		if n > 1 {
+			res.errs["ff.identical_both_acknowledged"] += n - 1
+		}
+	}
 	// non-vacuity: overlapping conditional updates with the same expectation on the same key, exactly one succeeded
 	for i := range conds {
 		for j := i + 1; j < len(conds); j++ {
@@ -899,6 +912,7 @@ func c20Hooks() {
 func c20(c *rig.Ctx) {
 	c.Rule("C20: histories of 3–6 client goroutines × 3–8 planned operations (plus the GetDataset reads that refresh handles) over 5 datasets (2 branches, their 2 working sets, 1 tag) private to the history, on an NBS store (file manifest / journal / two Database handles on one directory); operation mixes all|commits|ws|refs; handles are fresh (60 %), stale or head-less; every written value unique; a history is distinct by its recorded operations and non-trivial when ≥ 2 conditional updates with the same expectation overlapped in time")
 	c.Assume("C20: CLOCK_MONOTONIC stamps taken immediately around each API call bound the operation's real-time interval; porcupine v1.3.0 decides linearizability against the A.2 whole-state model; a checker timeout (30 s) is inconclusive")
+	c.Assume("C20: with two handles on one directory, a FastForward that finds head (and working set) already equal to its own result may report success (identical store root and table file give identical NBS manifest lock hashes; idempotent, nothing lost)")
 	c.Assume("C20: Delete may always answer ErrMergeNeeded; a Delete of an absent dataset succeeds (documented on datas.Database.Delete); errors of unlisted classes are accepted only as no-ops and are counted")
 	if !c.Race {
 		c.Note("C20 worker is not running from the -race build")
